@@ -221,6 +221,20 @@ fn run_corr(args: &Args, search: bool) -> Report {
         exh_bases.len(),
         k - 1
     ));
+    // every host spelling of the atom list and of the host premise pool in every host position (deterministic)
+    {
+        let mut hosts: Vec<String> = atoms().iter().map(|s| s.to_string()).collect();
+        hosts.extend(host_premise_pool().into_iter().step_by(if thorough { 1 } else { 5 }));
+        let http_base = bases.iter().find(|b| b.scheme() == "http");
+        for h in &hosts {
+            for pre in ["http://", "ws://u:p@", "a://", "file://"] {
+                cx.compare("host-spellings", 0, None, &format!("{}{}/p", pre, h));
+                cx.compare("host-spellings", 0, None, &format!("{}{}:8080", pre, h));
+            }
+            cx.compare("host-spellings", 0, http_base, &format!("//{}/x", h));
+        }
+        cx.rep.exhaustive.push(format!("host-spellings: {} host texts x 4 prefixes x 2 tails + scheme-relative form", hosts.len()));
+    }
     // structured + mutated random
     let n = if thorough { 600_000 } else { 40_000 };
     for i in 0..n {
